@@ -1332,7 +1332,32 @@ pub fn run(report: &mut Report, replay: Option<&str>) {
         "all single-field corruptions (extra key x every known property name, misspelt, duplicate, wrong type) of one base configuration per rule and three generator/bundle/top-level bases".into(),
         true,
     );
-    let mut all = valid;
+    // corpus: finding witnesses and past disagreements, replayed on every run
+    let mut corpus = Vec::new();
+    let corpus_dir = concat!(env!("CARGO_MANIFEST_DIR"), "/../corpus/C19");
+    if let Ok(entries) = std::fs::read_dir(corpus_dir) {
+        let mut paths: Vec<_> = entries.flatten().map(|e| e.path()).collect();
+        paths.sort();
+        for path in paths {
+            if let Ok(text) = std::fs::read_to_string(&path) {
+                if let Ok(v) = serde_json::from_str::<Value>(&text) {
+                    let tree = v["sexp"].as_str().and_then(j_of_sexp).or_else(|| {
+                        v["text"].as_str().and_then(|t| json5::from_str::<Value>(t).ok()).map(|x| J::from_value(&x))
+                    });
+                    if let Some(tree) = tree {
+                        corpus.push(Case {
+                            j: tree,
+                            origin: format!("corpus:{}", path.file_name().and_then(|n| n.to_str()).unwrap_or("")),
+                            must_reject: v["must_reject"].as_str().map(|x| x.to_owned()),
+                        });
+                    }
+                }
+            }
+        }
+    }
+    report.count("corpus_cases", corpus.len() as u64);
+    let mut all = corpus;
+    all.extend(valid);
     all.extend(random_cases);
     all.extend(corrupted);
     let outcomes = run_cases(all);
